@@ -8,8 +8,13 @@ from symx import selftest
 def main(tier, t0):
     st = selftest.run(seed(), rounds=30)
     tasks = strfn_check.tasks("C17", tier)
-    from checks import step_check
+    from checks import step_check, stage_check
     tasks += step_check.tasks("C17", tier)
+    import json
+    structs = ("opt-literal", "ref-vs-iri", "bnode-instances", "own-links", "incoming-fresh", "multi-typed")
+    for opt in ({"detect_minimal_iri": True}, {"examples_mode": "all"}, {"examples_mode": "cons", "detect_minimal_iri": True}, {"examples_mode": "shape"}):
+        tasks += stage_check.tasks_for("C17", tier, scenario="pair:e2e:" + json.dumps(opt, sort_keys=True), judge="C17e", sizes=lambda t, k: [3] if t == "quick" else [2, 3, 4],
+                                       structure_filter=lambda st: st["name"] in structs, cfg={"fixed_flags": {"remove_empty_shapes": True, "disable_exact_cardinality": False}})
     results = run_pool(tasks, budget_s=600 if tier == "quick" else 3000)
     m = strfn_check.meta("C17")
     sm = step_check.meta("C17")
@@ -17,5 +22,6 @@ def main(tier, t0):
                 assumptions=["instance IRIs are absolute IRIs with a non-empty authority; characters of IRIs range over every Unicode scalar allowed in an IRIREF"] + sm.get("assumptions", []),
                 explanation="longest_common_prefix, the fold in ClassProfiler._update_shape_min_iri and AnnotateMinIriStrategy._determine_suitable_iri_pattern are executed on strings with "
                             "symbolic characters: result is a common prefix, maximal, cut back to the last of : / #, and None for stems shorter than 3 or bare schemes; the example-annotation "
-                            "steps are executed from symbolic pre-states (H-STEP). proxy self-test: %r" % (st,))
+                            "steps are executed from symbolic pre-states (H-STEP); stem / example rendering and 'neither option changes any constraint' are judged on the real pipeline's output of every "
+                            "end-to-end witness of the paired stage runs (concrete oracle: stem recomputed from the instance IRIs, example looked up among the actual values). proxy self-test: %r" % (st,))
     return finish("C17", tier, results, meta, t0)
